@@ -47,7 +47,7 @@ func c04Scenarios(cfg runCfg) []Scenario {
 	np := cfg.n(2400, 20)
 	return mirrored(cfg, np, func(i int) []Scenario {
 		seed := mix(cfg.seed, 4, uint64(i))
-		switch i % 4 {
+		switch mix(seed, 404) % 4 {
 		case 0:
 			return []Scenario{{Family: "example", Seed: seed, N: 20}}
 		case 1:
